@@ -8,6 +8,9 @@ import (
 // extend adds further rules to a property registered by another file.
 func extend(id string, more func(c *Ctx)) {
 	orig := props[id]
+	if orig == nil {
+		panic("extend(" + id + "): property not registered yet — extension files must sort after the property's own file")
+	}
 	props[id] = func(c *Ctx) {
 		orig(c)
 		more(c)
